@@ -12,7 +12,7 @@ import (
 
 // PlanC15 measures one context-taking operation in isolation.
 type PlanC15 struct {
-	Op        string `json:"op"`              // xsend, xrecv, accept, chsend, process, estab-client, estab-server, finish, tlsup, srvfinish
+	Op        string `json:"op"`              // xsend, xrecv, accept, chsend, process, estab-client, estab-server, finish, tlsup, srvfinish, hclient
 	Transport string `json:"transport"`       // tcp, tcptls, ws, wss, inproc
 	Cancel    bool   `json:"cancel"`          // cancellation instead of a deadline
 	EndMs     int    `json:"end_ms"`          // when the context ends, from the start of the operation
@@ -23,7 +23,7 @@ type PlanC15 struct {
 	Trace     bool   `json:"trace,omitempty"` // TCP transports are configured with a TraceWriter
 }
 
-var c15Ops = []string{"xsend", "xrecv", "accept", "chsend", "process", "estab-client", "estab-server", "finish", "tlsup", "srvfinish"}
+var c15Ops = []string{"xsend", "xrecv", "accept", "chsend", "process", "estab-client", "estab-server", "finish", "tlsup", "srvfinish", "hclient"}
 
 func genC15(t *simrt.Tape, tier string) interface{} {
 	p := &PlanC15{}
@@ -470,6 +470,61 @@ func runC15(w *World, pi interface{}) {
 				return ch.SendMessage(ctx, bigMessage("measured", 3000))
 			})
 		}
+	case "hclient":
+		// the high-level Client against a server that accepts connections and never answers: its own
+		// listener goroutine is stuck establishing (with a context that never ends) when the
+		// application calls in with a context of its own
+		kind := p.Transport
+		if kind != "inproc" {
+			kind = "tcp"
+		}
+		cfg := lime.NewClientConfig()
+		cfg.ChannelBufferSize = 1
+		cfg.Authenticator = authenticatorFor("guest")
+		if kind == "tcp" {
+			rl, err := w.Net.Listen(tcpAddr(7540).String())
+			if err != nil {
+				return
+			}
+			defer rl.Close()
+			go func() {
+				for {
+					if _, err := rl.Accept(); err != nil {
+						return
+					}
+				}
+			}()
+			cfg.NewTransport = func(ctx context.Context) (lime.Transport, error) {
+				return lime.DialTcp(ctx, tcpAddr(7540), traced(p.Trace, &lime.TCPConfig{}))
+			}
+		} else {
+			ia := lime.InProcessAddr(fmt.Sprintf("c15-%d", ProcUniq()))
+			il := lime.NewInProcessTransportListener(ia)
+			if err := il.Listen(context.Background(), ia); err != nil {
+				return
+			}
+			defer il.Close()
+			cfg.NewTransport = func(ctx context.Context) (lime.Transport, error) { return lime.DialInProcess(ia, 1) }
+		}
+		hc := lime.NewClient(cfg, &lime.EnvelopeMux{})
+		defer w.Bounded("Client.Close at the end of the run", 2*time.Minute, func() { hc.Close() })
+		time.Sleep(200 * time.Millisecond)
+		what := []string{"Client.SendMessage", "Client.ProcessCommand", "Client.Establish"}[p.Stage%3]
+		measure(w, p, what, func(ctx context.Context) error {
+			switch p.Stage % 3 {
+			case 0:
+				return hc.SendMessage(ctx, bigMessage("measured", 10))
+			case 1:
+				cmd := &lime.RequestCommand{}
+				cmd.ID = "hc-cmd"
+				cmd.Method = lime.CommandMethodGet
+				cmd.SetURIString("/x")
+				_, err := hc.ProcessCommand(ctx, cmd)
+				return err
+			default:
+				return hc.Establish(ctx)
+			}
+		})
 	case "estab-client":
 		// real client against a scripted server that goes silent at a chosen stage
 		if p.Transport != "tcp" && p.Transport != "tcptls" {
@@ -587,7 +642,7 @@ func init() {
 		Gen:    genC15,
 		Run:    runC15,
 		MaxSim: 2 * time.Hour,
-		Rule: "plans = one context-taking operation per run: {Transport.Send, Transport.Receive, SetEncryption(TLS), Accept, channel SendMessage, ProcessCommand, client EstablishSession at 4 handshake stages, server EstablishSession at 4 stages, client FinishSession, server FinishSession/FailSession towards a client that consumes nothing (optionally after a command that was given up while a response bearing its id came in)} " +
+		Rule: "plans = one context-taking operation per run: {Transport.Send, Transport.Receive, SetEncryption(TLS), Accept, channel SendMessage, ProcessCommand, client EstablishSession at 4 handshake stages, server EstablishSession at 4 stages, client FinishSession, server FinishSession/FailSession towards a client that consumes nothing (optionally after a command that was given up while a response bearing its id came in), SendMessage/ProcessCommand/Establish of the high-level Client while its own listener is stuck establishing against a silent server} " +
 			"x transport {tcp, tcp+tls, ws, wss, in-process; TCP transports with or without a TraceWriter} x peer {silent, not reading with full buffers of several sizes} x {deadline, cancellation} x context end in {0,1,50,900,4990,5010,7300,12000,31000} ms; " +
 			"latency is measured on the simulated clock (code runs in zero simulated time); non-trivial = the operation was started; distinct = distinct (plan JSON, event-log hash)",
 	})
